@@ -8,7 +8,9 @@ import ExoVerif.Basic.KV
                          DeleteOperatorUSDValue, DeleteAllOperatorsUSDValueForAVS, GetOperatorOptedUSDValue
     keeper/common_func.go: CalculateUSDValue                → `usdValue`   (tie: Gen.calculateUSDValue)
     x/delegation/keeper/share.go: TokensFromShares          → `tokensFromShares` (tie: Gen.tokensFromShares)
-    keeper/impl_epoch_hook.go: AfterEpochEnd + x/avs/keeper/avs.go: GetEpochEndAVSs → `epochEnd`, `selected`
+    keeper/impl_epoch_hook.go: AfterEpochEnd + x/avs/keeper/avs.go: GetEpochEndAVSs → `epochEnd`, `selected`,
+                         `hookLoopWith`/`hookLoop` (the per-AVS loop; its error branch `continue`s: tie
+                         Gen.hookUpdateErrorExits), `updateVotingPowerE` (UpdateVotingPower with its error kept)
   LegacyDec values are raw integers (value·10^18). Errors are explicit (`Except`); an error anywhere
   inside the cached block leaves the stored values untouched, exactly as the cache context does.
 -/
@@ -134,12 +136,54 @@ deriving Repr, Inhabited
 def selected (regs : List AvsReg) (id : String) (n : Int) : List String :=
   (regs.filter (fun r => id == r.epochId && decide (r.startingEpoch - 1 ≤ n))).map (·.addr)
 
-/-- impl_epoch_hook.go: AfterEpochEnd: UpdateVotingPower for every selected AVS -/
-def epochEnd (regs : List AvsReg) (inputs : List (String × AvsIn)) (s : St) (id : String) (n : Int) : St :=
-  (selected regs id n).foldl (fun s avs =>
+/-- abci.go: UpdateVotingPower with the returned error kept: `.error` = `return err` (nothing was
+written: either the function returned before the cached block or the cache context was discarded),
+`.ok s'` = `return nil` with the new state. `updateVotingPower` is this function with the error
+swallowed (Proofs/VotingPower.lean: `updateVotingPower_eq_E`). -/
+def updateVotingPowerE (s : St) (avs : String) (i : AvsIn) : Except String St :=
+  if !i.assetsOk then
+    .ok { entries := erase s.entries avs, avsVal := erase s.avsVal avs }
+  else
+    match i.cfgs, i.minSelf with
+    | some cfgs, some m =>
+      match updateLoop cfgs m i.opAssets (getD s.entries avs []) with
+      | .error e => .error e
+      | .ok (es, v) => .ok { entries := set s.entries avs es, avsVal := set s.avsVal avs v }
+    | none, _ => .error "GetAssetsDecimal/GetMultipleAssetsPrices"
+    | some _, none => .error "GetAVSMinimumSelfDelegation"
+
+/-- what the branch `if err != nil { … }` of the per-AVS loop of AfterEpochEnd does with the rest
+of the list: go on with the next AVS (`continue`, the code as it is) or leave the loop (`return` /
+`break`). Tie: Gen.hookUpdateErrorExits (Props/C05Tie.lean). -/
+inductive ErrAction where
+  | next
+  | stop
+deriving Repr, DecidableEq, Inhabited
+
+/-- impl_epoch_hook.go: AfterEpochEnd, `for _, avs := range avsList { err := UpdateVotingPower(ctx, avs);
+if err != nil { log; <act> } }`, in list (= AVS store) order. An AVS the harness gave no input for
+is not registered and cannot be in the list; it is skipped. -/
+def hookLoopWith (act : ErrAction) (inputs : List (String × AvsIn)) : St → List String → St
+  | s, [] => s
+  | s, avs :: rest =>
     match find? inputs avs with
-    | some i => updateVotingPower s avs i
-    | none => s) s
+    | none => hookLoopWith act inputs s rest
+    | some i =>
+      match updateVotingPowerE s avs i with
+      | .ok s' => hookLoopWith act inputs s' rest
+      | .error _ =>
+        match act with
+        | .next => hookLoopWith act inputs s rest                -- `continue`
+        | .stop => s                                             -- `return`
+
+/-- the loop as the code has it: the error branch is `continue` -/
+def hookLoop (inputs : List (String × AvsIn)) (s : St) (avss : List String) : St :=
+  hookLoopWith .next inputs s avss
+
+/-- impl_epoch_hook.go: AfterEpochEnd: UpdateVotingPower for every selected AVS, an error of one
+AVS does not end the loop -/
+def epochEnd (regs : List AvsReg) (inputs : List (String × AvsIn)) (s : St) (id : String) (n : Int) : St :=
+  hookLoop inputs s (selected regs id n)
 
 /-! ### the specification: the closed formula of the property -/
 
